@@ -29,6 +29,11 @@ fn token_view(s: &str) -> (Vec<String>, Vec<String>) {
         }
         if t.kind.is_keyword() {
             code.push(format!("{k}:{}", text.to_ascii_uppercase()));
+        } else if k == "Error" && (text.starts_with("(*") || text.starts_with("/*")) {
+            // an unterminated block comment lexes as one error token reaching the end of the text: like a comment,
+            // it is compared line by line with surrounding blanks trimmed
+            let norm: Vec<&str> = text.trim_end().lines().map(|l| l.trim()).collect();
+            code.push(format!("{k}:{}", norm.join("\n")));
         } else {
             if k.contains("String") {
                 keep.push(format!("{k}:{text}"));
@@ -129,7 +134,29 @@ fn mutate(rng: &mut Rng, s: &str) -> String {
             _ => {}
         }
     }
-    parts.concat()
+    let mut out = parts.concat();
+    // line-level mutations: repeat a line (also with other indentation / trailing blanks), so adjacent lines are equal after re-indenting
+    if rng.chance(1, 2) {
+        let lines: Vec<&str> = out.split_inclusive('\n').collect();
+        let cands: Vec<usize> = (0..lines.len()).filter(|i| !lines[*i].trim().is_empty()).collect();
+        if !cands.is_empty() {
+            let i = cands[rng.usize(cands.len())];
+            let l = lines[i].trim_end_matches(['\n', '\r']);
+            let dup = match rng.below(4) {
+                0 => format!("{l}\n"),
+                1 => format!("\t{}   \n", l.trim()),
+                2 => format!("        {}\n", l.trim()),
+                _ => format!("{l}\n{l}\n"),
+            };
+            let mut v: Vec<String> = lines.iter().map(|x| x.to_string()).collect();
+            if !v[i].ends_with('\n') {
+                v[i].push('\n');
+            }
+            v.insert(i + 1, dup);
+            out = v.concat();
+        }
+    }
+    out
 }
 
 /// Adjacent-token gluing matrix: every pair of representative tokens on one statement line.
